@@ -76,6 +76,15 @@ CHECKS = {
          "(Model/Validate.v) is tied to codegen-v2.ts on every run by differential correspondence; the spec side (no_extra) is "
          "evaluated on the implementation's own answers to search for a failing input.",
          "Values are finite trees without getters/proxies, integer-like or duplicate keys; custom formats are pure."),
+ "C15": ("Theorems about Model/Describe.v (describe, describeChildren, collectDescribeRefs, ParserFromRuntype.describe): the alias table "
+         "has one entry per name and the rendered list of declarations has no duplicate, every call restores the active set, and "
+         "describeChildren() covers every component describe() descends into (C15_aliases_declared_once, C15_describe_restores_active, "
+         "C15_children_complete). The model is tied to codegen-v2.ts by comparing describe() text on generated validator trees. "
+         "Partial: termination on recursive types and the round trip through the compiler are not theorems (the compiler frontend is "
+         "not modelled); they are decided by a search on the implementation: describe -> compile the text -> validate()/hash256() of "
+         "both generations.",
+         "Descriptions are strings; generated programs use the constructs of tools/lib/tsgen.py plus forced families (recursion through "
+         "every container, non-identifier keys, bigint, names Object.prototype defines, generics, doc comments)."),
  "C13": ("Theorems: C13_writer_is_sha256 — for every sequence of writes (all chunkings, block boundaries, both padding branches, "
          "the 64-bit length field) the streaming Hash256Writer returns FIPS 180-4 SHA-256 of the concatenation, by an invariant "
          "over the write list; the constants regenerated from hash.ts equal the FIPS constants; hash256() of every tree = "
